@@ -784,7 +784,7 @@ def run(ctx):
         raise common.HarnessError("Lysosome has no threading.Lock/RLock attribute to replace")
     _selfcheck(model)
     depth = 7 if ctx.tier == "quick" else 10
-    res = explore.explore(model, ctx, depth)
+    res = explore.explore(model, ctx, depth, validate_canon=200 if ctx.tier == "thorough" else 0)
     n_seq_outcomes = len(ctx.outcomes)
 
     # ---- schedules
@@ -795,7 +795,7 @@ def run(ctx):
     else:
         single = systematic("quick")
         small = [(n, 1) for n in sysm if n not in single] + [(n, 3) for n in single]
-        big = [(n, 3) for n in CURATED]
+        big = [(n, 2 if n == "T7-threshold3" else 3) for n in CURATED]  # T7 has the longest executions: bound 2
     merged = explore_schedules(ctx, small, big)
     total_exec = 0
     max_points = 0
